@@ -1,6 +1,11 @@
 package main
 
-import "sort"
+import (
+	"sort"
+
+	"github.com/johnkerl/miller/v6/pkg/bifs"
+	"github.com/johnkerl/miller/v6/pkg/mlrval"
+)
 
 func init() {
 	ops["bin8"] = ops["bin7"]
@@ -10,6 +15,27 @@ func init() {
 		r1 := guard(func() string { return encodeVal(f(decodeVal(a[1]), decodeVal(a[2]))) })
 		r2 := guard(func() string { return encodeVal(f(decodeVal(a[2]), decodeVal(a[1]))) })
 		return r1 + " " + r2
+	}
+	ops["nary8"] = func(a []string) string {
+		f := bifs.BIF_min_variadic
+		if a[0] == "max" {
+			f = bifs.BIF_max_variadic
+		}
+		run := func(rev bool) string {
+			return guard(func() string {
+				var vs []*mlrval.Mlrval
+				for _, s := range a[1:] {
+					vs = append(vs, decodeVal(s))
+				}
+				if rev {
+					for i, j := 0, len(vs)-1; i < j; i, j = i+1, j-1 {
+						vs[i], vs[j] = vs[j], vs[i]
+					}
+				}
+				return encodeVal(f(vs))
+			})
+		}
+		return run(false) + " " + run(true)
 	}
 	families["c08"] = genC08
 }
@@ -37,6 +63,25 @@ func genC08(r *rng, thorough bool) {
 			for _, b := range kindReps {
 				gen("comm8 " + t + " " + a + " " + b)
 			}
+		}
+	}
+	for _, f := range []string{"min", "max"} {
+		for _, a := range kindReps {
+			gen("nary8 " + f + " " + a)
+			for _, b := range kindReps {
+				gen("nary8 " + f + " " + a + " " + b)
+			}
+		}
+		n := 300
+		if thorough {
+			n = 6000
+		}
+		for i := 0; i < n; i++ {
+			line := "nary8 " + f
+			for k := 3 + r.intn(3); k > 0; k-- {
+				line += " " + kindReps[r.intn(len(kindReps))]
+			}
+			gen(line)
 		}
 	}
 	var ut []string
